@@ -104,9 +104,17 @@ def _run_one(args):
         except AnalysisError as exc:
             if m.get("analysis_error_ok"):
                 return (m["name"], "killed", f"analysis-error: {exc}")
+            if m.get("expect") == "ok":
+                return (m["name"], "false-alarm", f"ANALYSIS-ERROR on a behaviour-preserving variant: {exc}")
             return (m["name"], "missed", f"ANALYSIS-ERROR instead of a violation: {exc}")
         known = harness.load_known()
         failing = [i for i in ctx.insts if not i.holds and not harness.match_known(prop, i, known)]
+        if m.get("expect") == "ok":
+            # behaviour-preserving twin: the check must stay silent
+            if failing:
+                i = failing[0]
+                return (m["name"], "false-alarm", f"{i.rule} {i.file}:{i.line} {i.construct}: {i.reason}")
+            return (m["name"], "silent", "no rule fired on the behaviour-preserving variant")
         want = set(m.get("rules", []))
         hit = [i for i in failing if not want or i.rule in want]
         if hit:
@@ -131,8 +139,8 @@ def main(prop, repo_root: str, jobs: int = 16, quiet: bool = False) -> int:
             continue
         with ProcessPoolExecutor(max_workers=min(jobs, len(muts))) as ex:
             res = list(ex.map(_run_one, [(p, repo_root, m) for m in muts]))
-        killed = [r for r in res if r[1] == "killed"]
-        bad = [r for r in res if r[1] in ("missed", "error", "broken-mutant")]
+        killed = [r for r in res if r[1] in ("killed", "silent")]
+        bad = [r for r in res if r[1] in ("missed", "error", "broken-mutant", "false-alarm")]
         na = [r for r in res if r[1] == "not-applicable"]
         summary[p] = {"mutants": len(muts), "killed": len(killed), "not_applicable": len(na), "missed": [r[0] for r in bad]}
         if not quiet:
